@@ -221,3 +221,19 @@ PROPS['C08'] = dict(
         thorough=[rc(600000, shards=4, max_size=500, corpus=CORPUS), fuzz(15000000, shards=12, max_len=2048, corpus=CORPUS)],
     ),
 )
+
+PROPS['C12'] = dict(
+    harness='reuse',
+    rule=('cases: pairs (previous use, next use). Previous: arbitrary (valid / mutated / raw) document, arbitrary and also off-protocol op script of up to '
+          '24 calls abandoned anywhere (mid-container, after an error, after a rejected init), arbitrary pre-fill of the struct and the state array; then '
+          'init on a second generated document, or reset, or verify. Next: arbitrary op script of up to 64 calls over the same op alphabet as C01. The '
+          'hash of everything each call lets the caller observe (return value, error code, depth, getter values, spans as offsets, to_string size/text) '
+          'must equal the trace of the same script on a fresh zero-initialised parser. Writer: arbitrary sequence incl. overflow / NULL-argument errors, '
+          'then init or a reset that returned true, then a second sequence compared (returns, counter, error, bytes) with a fresh writer. Non-trivial '
+          'iff the previous use ended inside a container, in an error, with a rejected init or over a garbage struct, the restart was accepted and >= 4 '
+          'calls were compared (writer: the previous use ended in an error); distinct = hash(both documents, op kinds).'),
+    tiers=dict(
+        quick=[rc(30000, shards=7, max_size=300, corpus=CORPUS), fuzz(250000, shards=9, corpus=CORPUS)],
+        thorough=[rc(600000, shards=4, max_size=600, corpus=CORPUS), fuzz(20000000, shards=12, max_len=2048, corpus=CORPUS)],
+    ),
+)
